@@ -9,6 +9,7 @@ package pebbledb
 //         machine-strict / machine-torn) and reopened.
 
 import (
+	"encoding/json"
 	"fmt"
 	"strings"
 	"testing"
@@ -32,9 +33,10 @@ const (
 	opSetThreshold
 	opSetTolerance
 	opBulkAdd // one AddSignatures call with ~1000-2500 unique IDs: crosses the 1000-entry chunk boundaries of rebuild/migrate
+	opMigrate // MigrateFromJSON of a small file (well-formed, with a rejected entry, or truncated) into the open store
 )
 
-var opNames = []string{"Add", "AddBatch", "Delete", "MarkFP", "Rebuild", "Checkpoint", "Compact", "Reopen", "SetThreshold", "SetTolerance", "BulkAdd"}
+var opNames = []string{"Add", "AddBatch", "Delete", "MarkFP", "Rebuild", "Checkpoint", "Compact", "Reopen", "SetThreshold", "SetTolerance", "BulkAdd", "Migrate"}
 
 type storeOp struct {
 	Kind  opKind
@@ -48,6 +50,8 @@ func (o storeOp) String() string {
 	switch o.Kind {
 	case opBulkAdd:
 		return fmt.Sprintf("BulkAdd(%d unique IDs)", len(o.Sigs))
+	case opMigrate:
+		return fmt.Sprintf("Migrate(%d entries, %s)", len(o.Sigs), o.Notes)
 	case opAdd, opAddBatch:
 		var parts []string
 		for _, s := range o.Sigs {
@@ -140,6 +144,15 @@ func genOp(t *vs.Tape, g *genCtx) storeOp {
 		op.Kind = k
 	}
 	switch k {
+	case opMigrate:
+		n := 1 + t.Intn(4, "mig.n")
+		for i := 0; i < n; i++ {
+			op.Sigs = append(op.Sigs, genSig(t, g, false, false))
+		}
+		op.Notes = vs.Pick(t, "mig.kind", "ok", "ok", "rejected-entry", "truncated")
+		if op.Notes == "rejected-entry" {
+			op.Sigs[t.Intn(n, "mig.bad")].TopologyHash = ""
+		}
 	case opBulkAdd:
 		g.bulked = true
 		// the TOTAL number of live signatures lands on / around the 1000-entry chunk boundaries
@@ -183,9 +196,9 @@ func genOp(t *vs.Tape, g *genCtx) storeOp {
 // swarmWeights draws the operation mix of one run: every kind gets a base
 // weight and a random subset is boosted or disabled (swarm testing).
 func swarmWeights(t *vs.Tape, crash bool) []int {
-	base := []int{8, 5, 4, 2, 2, 1, 1, 2, 1, 1, 0}
+	base := []int{8, 5, 4, 2, 2, 1, 1, 2, 1, 1, 0, 2}
 	if crash {
-		base = []int{8, 5, 4, 2, 3, 1, 1, 1, 0, 0, 0}
+		base = []int{8, 5, 4, 2, 3, 1, 1, 1, 0, 0, 0, 2}
 	}
 	w := append([]int(nil), base...)
 	// bulk histories are expensive: a small fraction of runs enables them
@@ -199,7 +212,10 @@ func swarmWeights(t *vs.Tape, crash bool) []int {
 			w[int(opRebuild)] += 4
 		}
 	}()
-	for i := range w[:int(opBulkAdd)] {
+	for i := range w {
+		if i == int(opBulkAdd) {
+			continue
+		}
 		switch t.Weighted("swarm", 6, 1, 1) {
 		case 1:
 			w[i] *= 4
@@ -330,6 +346,39 @@ func (e *storeEnv) apply(op storeOp, g *genCtx) *vs.Violation {
 				m.sigs[cp[i].ID] = cloneSig(cp[i])
 			}
 		}
+	case opMigrate:
+		db := struct {
+			Version    string                `json:"version"`
+			Signatures []detection.Signature `json:"signatures"`
+		}{"1.0", op.Sigs}
+		data, _ := json.Marshal(db)
+		if op.Notes == "truncated" {
+			data = data[:len(data)-2-len(data)%7]
+		}
+		must(e.disk.WriteFile(simdisk.Mount+"/import.json", data, 0o644))
+		n, err := e.s.MigrateFromJSON(simdisk.Mount + "/import.json")
+		e.c.Inc("migrate_" + op.Notes)
+		if op.Notes == "ok" {
+			if err != nil || n != len(op.Sigs) {
+				return vs.Violationf("C06/migrate-result", "MigrateFromJSON of a well-formed %d-entry file returned (%d, %v)", len(op.Sigs), n, err)
+			}
+			for _, sg := range op.Sigs {
+				m.sigs[sg.ID] = cloneSig(sg)
+			}
+		} else {
+			if err == nil {
+				return vs.Violationf("C06/migrate-result", "MigrateFromJSON of a %s file returned success (%d)", op.Notes, n)
+			}
+			// The error is what the property demands; whatever the call reports as
+			// processed was committed before the damage was detected (complete
+			// entries of a truncated file) and must be exactly what the store holds.
+			if n < 0 || n > len(op.Sigs) || (op.Notes == "rejected-entry" && n != 0) {
+				return vs.Violationf("C06/migrate-result", "MigrateFromJSON of a %s %d-entry file reports %d processed", op.Notes, len(op.Sigs), n)
+			}
+			for _, sg := range op.Sigs[:n] {
+				m.sigs[sg.ID] = cloneSig(sg)
+			}
+		}
 	case opDelete:
 		_, live := m.sigs[op.ID]
 		err := e.s.DeleteSignature(op.ID)
@@ -387,7 +436,7 @@ func (e *storeEnv) apply(op storeOp, g *genCtx) *vs.Violation {
 }
 
 func isMutation(k opKind) bool {
-	return k == opAdd || k == opAddBatch || k == opDelete || k == opMarkFP || k == opRebuild || k == opBulkAdd
+	return k == opAdd || k == opAddBatch || k == opDelete || k == opMarkFP || k == opRebuild || k == opBulkAdd || k == opMigrate
 }
 
 // ---------------------------------------------------------------- C06
